@@ -228,6 +228,62 @@ func init() {
 	for _, p := range []string{"C05", "C04"} {
 		RegGen(p, "plus a successor that inherits 1998 / 2000 validity starts, holds channels of its own and is promoted and retired in the same round", genBigInheritance)
 	}
+	// More distinct streams than one observation may carry (two channels, 10 001 streams together; every channel and
+	// every observation within its own limit): each referenced pair holds a timestamped aggregate; observers go on
+	// reporting a few of them, then nothing.  Nothing may disappear or go back in time.
+	genManyStreams := func(g *G) {
+		for _, ver := range []uint32{1, 0} {
+			w := newWorld(g)
+			w.f, w.version, w.interval, w.alias, w.verbose, w.hasPred = 1, ver, uint64(ver), 0, false, false
+			w.now = 1_700_000_000_000_000_000
+			extra := 20001
+			mkStreams := func(from, to int, first ...int) []any {
+				out := []any{}
+				for _, sid := range first {
+					out = append(out, J{"sid": S(sid), "agg": "1"})
+				}
+				for sid := from; sid <= to; sid++ {
+					out = append(out, J{"sid": S(sid), "agg": "1"})
+				}
+				return out
+			}
+			defs := []any{J{"id": "1", "def": J{"format": "2", "opts": "", "streams": mkStreams(1, 6000)}},
+				J{"id": "2", "def": J{"format": "2", "opts": "", "streams": mkStreams(6001, 10000, extra)}}}
+			va := []any{J{"id": "1", "va": S(w.now - 1_000_000_000)}, J{"id": "2", "va": S(w.now - 1_000_000_000)}}
+			tsv := func(at uint64, v int64) any {
+				return svJ(&llo.TimestampedStreamValue{ObservedAtNanoseconds: at, StreamValue: llo.ToDecimal(decimal.New(v, 0))})
+			}
+			aggs := []any{}
+			for sid := 1; sid <= 10000; sid++ {
+				aggs = append(aggs, J{"sid": S(sid), "agg": "1", "v": tsv(w.now-5000+uint64(sid%7), int64(sid))})
+			}
+			aggs = append(aggs, J{"sid": S(extra), "agg": "1", "v": tsv(w.now-4000, 300)})
+			start := J{"stage": "production", "ts": S(w.now), "defs": defs, "va": va, "aggs": aggs}
+			rounds := []any{}
+			for r := 0; r < 4; r++ {
+				w.now += 2_000_000_000
+				obs, honest := []any{}, []any{}
+				for k := 0; k < 4; k++ {
+					vals := []any{}
+					switch r {
+					case 0, 1: // newer values for three streams, among them the first and the last referenced
+						for _, sid := range []int{1, 6000, 10000, extra} {
+							vals = append(vals, J{"sid": S(sid), "v": tsv(w.now-100+uint64(k), int64(100+k))})
+						}
+					case 2: // older than what the outcome holds
+						for _, sid := range []int{6000, extra} {
+							vals = append(vals, J{"sid": S(sid), "v": tsv(1000+uint64(k), 7)})
+						}
+					}
+					obs = append(obs, J{"retire": false, "attested": "", "ts": S(w.now + uint64(k)), "removes": []any{}, "updates": []any{}, "values": vals})
+					honest = append(honest, k)
+				}
+				rounds = append(rounds, J{"obs": obs, "honest": honest})
+			}
+			g.Emit(J{"op": "llo.history", "cfg": w.cfgJ(), "start": start, "startSeqNr": 10, "rounds": rounds, "attestations": []any{}}, "history", "more-streams-than-one-observation-carries")
+		}
+	}
+	RegGen("C18", "plus a history whose channels reference 10 001 distinct timestamped streams", genManyStreams)
 	for _, p := range []string{"C03", "C04", "C18", "C11"} {
 		RegGen(p, "plus histories whose timestamps differ by exactly the minimum report interval (and one nanosecond off)", genExact)
 	}
